@@ -1,15 +1,19 @@
 import binascii, glob, json, os, shutil, subprocess, vlib
 from props import gocommon
 
-THEOREMS = ["Folang.Props.C01.papp_agrees_when_pure", "Folang.Props.C01.papp_effects_late",
+THEOREMS = ["Folang.Sem.lower_correct", "Folang.Sem.sim", "Folang.Sem.gevalN_mono", "Folang.Sem.exampleProg_wf",
+            "Folang.Sem.exampleProg_runs", "Folang.Sem.exampleProg_lowered",
+            "Folang.Props.C01.papp_agrees_when_pure", "Folang.Props.C01.papp_effects_late",
             "Folang.Props.C08.climb_eq_group", "Folang.Props.C14.ifElse_true", "Folang.Props.C14.ifElse_false",
             "Folang.Props.C14.ifOnly_false", "Folang.Props.C14.pipe_spec", "Folang.Props.C09.dispatch_total",
             "Folang.Props.C11.C11_interp", "Folang.Props.C11.C11_plain"]
 
 ASSUMPTIONS = [
-    "PARTIAL: C01_full (a verified-compiler statement for parser+inference+emitter) is stated, not proved. Proved: the partial-application lowering preserves behaviour for effect-free given arguments (papp_agrees_when_pure) and the mechanisms of the anchors (operator grouping C08, thunked branches and pipe C14, match dispatch C09, literals C11)",
-    "the reference semantics (strict, left to right, lexically scoped; Oracle/FSem.lean, executable Lean) is trusted as the meaning of the abstract programs; the generator (harness/fcdrv/gen.go) renders them to text",
-    "search = the property's own observable: type-directed random programs over the documented subset (let, functions, closures, partial application, pipes, if/elif/else, union and string match, records, tuples, slices, destructuring, interpolation, library calls, equality) + a hand-kept boundary corpus; transpiled by the real pipeline in-process, compiled with the Go toolchain, run; stdout vs the reference evaluator; go build diagnostics are failures",
+    "PARTIAL. Proved (Props/Sim.lean, no bound on program size, nesting or recursion): lower_correct — for every well-formed program of core Folang (literals, variables, first-order primitives, && ||, if/else with block branches, if-only, let / destructuring let, full and partial application of top-level functions, application of function values, closures, pipes, slice.Map/Filter/Fold, union and string match in return and expression position, recursion) whenever the reference semantics runProg finishes with output tr, the Go-core semantics of the lowered program finishes with the same output. Hypothesis wfProg: given arguments of a partial application are literals or variables (known finding D9: papp_effects_late shows the lowering is unfaithful otherwise). gevalN_mono: results do not depend on the fuel once it suffices",
+    "NOT proved: C01_full for the real pipeline. The theorem is about three models — the reference semantics evalN (Sem/Eval.lean), the lowering lowerE/lowerB (Sem/Lower.lean), the Go-core semantics gevalN (Sem/GoCore.lean). Tie on every run: (1) sem.lower — the Go really emitted for every generated function is read back with go/parser (types erased) and must EQUAL the model's lowering of the abstract function, so parser + emitter together are checked against lowerB; (2) sem.prog / c01.prog — the stdout of the compiled program must equal the output of runProg (the same definition the theorem is about; the oracle also re-evaluates the lowered program with gevalN) and of the older evaluator Oracle/FSem.lean. Text -> abstract program (parser), type inference and the type annotations of the emitted Go are not modelled (the Go type checker and the run check them per program)",
+    "trusted: the Go-core semantics as a model of Go (call by value, left-to-right evaluation of call operands, short-circuit && ||, closures capture, type switch; integers unbounded) and of frt.IfElse / IfOnly / Pipe and slice.Map / Filter / Fold by their definitions; primitives on first-order data have one semantics used on both sides (their correctness is C10 / C13 / C14)",
+    "outside the proved fragment, counted in coverage.distribution (outside-fragment.*): string-match arms binding a variable, compound literals as given arguments of a partial application; those programs are still compared by stdout (c01.prog)",
+    "search = the property's own observable: type-directed random programs over the documented subset + a hand-kept boundary corpus; transpiled by the real pipeline in-process, compiled with the Go toolchain, run; stdout vs the reference semantics; go build diagnostics are failures",
     "generators stay inside the hypotheses of known findings: given arguments of partial applications are effect free (D9), every binding is used (D17), fewer than 100 inference variables per definition (D12); integers stay small (no wrap-around)",
 ]
 
@@ -20,11 +24,11 @@ def run(ctx):
     ctx.ensure_oracle()
     fcdrv = ctx.build_fcdrv()
     ctx.assumptions += ASSUMPTIONS
-    ctx.partial.append("C01_full not proved; forward simulation IR -> Go-core (lower_preserves) not built")
-    ctx.lake_build(["Folang.Props.C01"])
-    ctx.audit(THEOREMS, ["Folang.Props.C01"])
+    ctx.partial.append("forward simulation lower_correct proved for the core fragment over models tied to the code by read-back and execution; C01_full for the real pipeline (parser, inference, type annotations) not proved")
+    ctx.lake_build(["Folang.Props.C01", "Folang.Props.Sim"])
+    ctx.audit(THEOREMS, ["Folang.Props.C01", "Folang.Props.Sim"])
     if ctx.tier == "thorough":
-        ctx.leanchecker(["Folang.Props.C01"])
+        ctx.leanchecker(["Folang.Props.C01", "Folang.Props.Sim"])
     wd = gocommon.workdir("c01.work")
     # boundary corpus and known findings
     paths = sorted(glob.glob(os.path.join(vlib.VERIF, "corpus", "C01", "*.fo")))
@@ -60,10 +64,16 @@ def run(ctx):
         runs = [("%d 2500 %s 60" % (ctx.seed * 10 + k, wd)) for k in range(8)]
     for k, a in enumerate(runs):
         mism = ctx.stream("c01.prog/%d" % k, [fcdrv], env=gocommon.fc_env("c01", a), timeout=3000, max_samples=1)
-        for (i, e, o) in mism[:3]:
+        # a differing read-back (sem.lower) is a broken correspondence, not yet a failing input: the
+        # failing input, if there is one, is a program whose stdout differs (c01.prog / sem.prog)
+        behav = [m for m in mism if not m[0].startswith("(sem.lower")]
+        struct = [m for m in mism if m[0].startswith("(sem.lower")]
+        for (i, e, o) in behav[:3]:
             ctx.direct.append({"kind": "stdout differs from the reference semantics", "input": i[:6000], "reference": e, "observed": o})
+        if struct:
+            ctx.notes.append("sem.lower: the Go emitted for %d functions differs from the lowering model; first: model=%s emitted=%s" % (len(struct), struct[0][1][:1500], struct[0][2][:1500]))
     shutil.rmtree(wd, ignore_errors=True)
-    ctx.finish(rule="type-directed random programs (1-3 helper functions + an entry function each; half of them rendered under a random layout) in batches of 60 per Go build + boundary corpus; stdout of the compiled output vs the Lean reference evaluator on the abstract program; the measured feature distribution is in coverage.distribution; distinct = distinct abstract programs")
+    ctx.finish(rule="type-directed random programs (1-3 helper functions + an entry function each; half of them rendered under a random layout) in batches of 60 per Go build + boundary corpus; stdout of the compiled output vs the Lean reference semantics on the abstract program (streams c01.prog, sem.prog) and Go-core read-back of every emitted function vs the lowering model (sem.lower); the measured feature distribution is in coverage.distribution; distinct = distinct abstract programs")
 
 
 def replay(ctx, path):
